@@ -87,7 +87,7 @@ T = {
 def main():
     det = {}
     import re
-    for logf in ("/root/scratch/wave1_detect.log", "/root/scratch/wave2_detect.log", "/root/scratch/wave3_detect.log", "/root/scratch/manual_detect.log"):
+    for logf in ("/root/scratch/wave1_detect.log", "/root/scratch/wave2_detect.log", "/root/scratch/wave3_detect.log", "/root/scratch/wave4_detect.log", "/root/scratch/manual_detect.log"):
         if not os.path.exists(logf):
             continue
         sid = None
